@@ -27,7 +27,8 @@ def main():
         try:
             req = json.loads(line)
             if req["op"] == "truth":
-                t = z3.parse_smt2_string(f"(assert {req['term']})")[0]
+                decls = {n: z3.String(n) for n in req.get("decls", [])}
+                t = z3.parse_smt2_string(f"(assert {req['term']})", decls=decls)[0]
                 out = {"ok": True, "value": truth(t, req.get("timeout_ms", 10000))}
             elif req["op"] == "simplify":
                 t = z3.parse_smt2_string(f"(assert (= {req['term']} {req['term']}))")[0].arg(0)
